@@ -11,6 +11,7 @@ import (
 	"math/rand"
 	"os"
 	"sort"
+	"sync"
 
 	"github.com/LiskHQ/lisk-engine/pkg/db"
 	"github.com/LiskHQ/lisk-engine/pkg/trie/rmt"
@@ -72,11 +73,28 @@ func fold(t *Term, upd map[int]bool) []byte {
 	return h.Sum(nil)
 }
 
-type mapStore struct{ m map[string][]byte }
+// safe for concurrent use, as the real database is (the tree may use goroutines of its own)
+type mapStore struct {
+	mu sync.Mutex
+	m  map[string][]byte
+}
 
-func (s *mapStore) Get(k []byte) ([]byte, bool) { v, ok := s.m[string(k)]; return v, ok }
-func (s *mapStore) Set(k, v []byte)             { s.m[string(k)] = append([]byte{}, v...) }
-func (s *mapStore) Del(k []byte)                { delete(s.m, string(k)) }
+func (s *mapStore) Get(k []byte) ([]byte, bool) {
+	s.mu.Lock()
+	defer s.mu.Unlock()
+	v, ok := s.m[string(k)]
+	return v, ok
+}
+func (s *mapStore) Set(k, v []byte) {
+	s.mu.Lock()
+	defer s.mu.Unlock()
+	s.m[string(k)] = append([]byte{}, v...)
+}
+func (s *mapStore) Del(k []byte) {
+	s.mu.Lock()
+	defer s.mu.Unlock()
+	delete(s.m, string(k))
+}
 
 func height(n int) uint64 {
 	h := uint64(0)
